@@ -59,6 +59,7 @@ func VP_C11_Cli() {
 	zzvp.WriteFile(w+"/f", []byte("1"))
 	vpOK(zzvp.Run("add", "f"))
 	vpOK(zzvp.Run("commit", "-m", msg))
+	vpOK(zzvp.Run("branch", "dev")) // stays at the first commit
 	zzvp.WriteFile(w+"/f", []byte("2"))
 	vpOK(zzvp.Run("add", "f"))
 	vpOK(zzvp.Run("commit", "-m", "second"))
@@ -78,10 +79,10 @@ func VP_C11_Cli() {
 		r = zzvp.Run("commit", "-m", zzvp.Str("msg2", zzvp.Choose(zzvp.Param("msglen", 3)+1), vpMsgAlpha))
 		kind = "commit"
 	case 1:
-		r = zzvp.Run("switch", "-c", "dev")
+		r = zzvp.Run("switch", "-c", "topic")
 		kind = "checkout"
 	case 2:
-		vpOK(zzvp.Run("branch", "dev"))
+		// to a branch that points to another commit than the one being left
 		r = zzvp.Run("switch", "dev")
 		kind = "checkout"
 	default:
